@@ -334,10 +334,10 @@ impl Monitor for C08 {
         "C08"
     }
     fn gens(&self, tier: Tier) -> Vec<(&'static str, u64)> {
-        vec![("lattice", tier.pick(4320 * 150, 3 * 1440 * 1440)), ("sequences", tier.pick(75_000, 750_000)), ("flat_sizes", 1100), ("large_flat_sizes", 1), ("flatten", tier.pick(15_000, 150_000))]
+        vec![("lattice", tier.pick(4320 * 150, 3 * 1440 * 1440)), ("sequences", tier.pick(75_000, 750_000)), ("large_extents", tier.pick(3_000, 60_000)), ("flat_sizes", 1100), ("large_flat_sizes", 1), ("flatten", tier.pick(15_000, 150_000))]
     }
     fn rule(&self) -> &'static str {
-        "lattice: single conv/deconv/pool layers; axis 0 enumerates (extent 1..10, kernel 1..4, stride 1..3, padding 0..3, dilation 1..3) completely, axis 1 follows a covering walk over the same 1440 tuples; configurations invalid by the standard formulas are skipped (counted); for the others: the `inputs -> outputs` line of the network's Display == closed form (conv floor((i+2p-d(k-1)-1)/s)+1, deconv (i-1)s-2p+k, pool floor((i-k)/s)+1) == shape field and nesting of the tensors forward produces, and every weight/bias/kernel gradient of the hooked backward has the shape of its parameter. sequences: random networks of depth 1..5 with all transitions, every fourth with a feedback block. flat_sizes: EVERY flat size n = 1..1100 x {conv, deconv, pool}: accepted iff n is a perfect square, then read as 1 x r x r in row-major order (index-valued input through 1x1 identity layers); network-level (dense(n) followed by the spatial layer) for n <= 150. large_flat_sizes: r*r + d for r in {4095..100003}, d in -3..3 (lengths beyond 2^24 that single precision cannot represent), layer level. flatten: spatial output into identity dense layer must arrive in row-major order."
+        "lattice: single conv/deconv/pool layers; axis 0 enumerates (extent 1..10, kernel 1..4, stride 1..3, padding 0..3, dilation 1..3) completely, axis 1 follows a covering walk over the same 1440 tuples; configurations invalid by the standard formulas are skipped (counted); for the others: the `inputs -> outputs` line of the network's Display == closed form (conv floor((i+2p-d(k-1)-1)/s)+1, deconv (i-1)s-2p+k, pool floor((i-k)/s)+1) == shape field and nesting of the tensors forward produces, and every weight/bias/kernel gradient of the hooked backward has the shape of its parameter. large_extents: single conv/deconv/pool layers (every third followed by a dense layer) with one extent from {31..33, 63..66, 127..130, 255..257}, 1..17 channels and filters, kernels 1..7, stride 1..5, padding 0..4, dilation 1..4, any activation - same checks. sequences: random networks of depth 1..5 with all transitions, every fourth with a feedback block. flat_sizes: EVERY flat size n = 1..1100 x {conv, deconv, pool}: accepted iff n is a perfect square, then read as 1 x r x r in row-major order (index-valued input through 1x1 identity layers); network-level (dense(n) followed by the spatial layer) for n <= 150. large_flat_sizes: r*r + d for r in {4095..100003}, d in -3..3 (lengths beyond 2^24 that single precision cannot represent), layer level. flatten: spatial output into identity dense layer must arrive in row-major order."
     }
     fn assumptions(&self) -> Vec<&'static str> {
         vec!["the Display output of Network is parsed black-box for the announced shapes", "harness built with overflow checks on"]
@@ -355,6 +355,42 @@ impl Monitor for C08 {
                 if idx < 3 {
                     out.sample = Some(J::obj().set("network", J::s(&cfg.describe())));
                 }
+            }
+            "large_extents" => {
+                // one extent around a power of two (31..257), kernels up to 7, stride up to 5,
+                // padding up to 4, dilation up to 4, up to 17 channels / filters
+                let kind = kind_of(idx);
+                let big = *rng.pick(&crate::monitors::c02::THRESHOLDS[..14]);
+                let small = rng.range(1, 9);
+                let (h, w) = if rng.bool() { (big, small) } else { (small, big) };
+                let c = *rng.pick(&[1usize, 2, 3, 8, 9, 16, 17]);
+                let filters = *rng.pick(&[1usize, 2, 3, 8, 9, 17]);
+                let g = |rng: &mut Rng| (rng.range(1, 7), rng.range(1, 5), rng.range(0, 4), rng.range(1, 4));
+                let (k0, s0, p0, d0) = g(&mut rng);
+                let (k1, s1, p1, d1) = g(&mut rng);
+                let act = *rng.pick(&ALL_ACTS);
+                let l = match kind {
+                    "conv" => LCfg::Conv { filters, kernel: (k0, k1), stride: (s0, s1), padding: (p0, p1), dilation: (d0, d1), act, dropout: None },
+                    "deconv" => LCfg::Deconv { filters, kernel: (k0, k1), stride: (s0, s1), padding: (p0, p1), act, dropout: None },
+                    _ => LCfg::Pool { kernel: (k0, k1), stride: (s0, s1) },
+                };
+                let mut layers = vec![l];
+                // every third case: a dense layer behind it (flattening of a large output)
+                if idx % 3 == 2 {
+                    layers.push(LCfg::Dense { n: rng.range(1, 3), act: Act::Linear, bias: false, dropout: None });
+                }
+                let cfg = NetCfg::plain(Sh::Sp(c, h, w), layers);
+                // bound the work (deconvolution outputs grow with the stride)
+                let work: usize = cfg.shapes().map(|s| s.iter().map(|x| x.1.count()).sum::<usize>() * k0 * k1 * c).unwrap_or(0);
+                if work > 250_000 {
+                    out.nontrivial = false;
+                    out.count("large_extent_cases_skipped_for_their_size", 1);
+                    return out;
+                }
+                out.key = cfg.describe();
+                out.cover("large_extents", format!("{} {}x{}", kind, h, w));
+                out.count("large_extent_layers", 1);
+                check_network(&cfg, &mut out, cfg.layers[0].kind());
             }
             "sequences" => {
                 let mut o = NetOpts::standard();
